@@ -85,6 +85,14 @@ def fmtBits : NumFmt → Nat
   | .byte => 8
   | .ascii => 0 | .bool => 0
 
+/-- 2^width of a fixed-width number format -/
+def fmtLim : NumFmt → Int
+  | .hex64 => 18446744073709551616 | .hex32 => 4294967296 | .hex16 => 65536 | .hex8 => 256 | .hex4 => 16
+  | .big64 => 18446744073709551616 | .big32 => 4294967296 | .big16 => 65536
+  | .little64 => 18446744073709551616 | .little32 => 4294967296 | .little16 => 65536
+  | .byte => 256
+  | .ascii => 0 | .bool => 0
+
 /-- "within the layout's width": a format at least as wide as the field's type carries every value (two's
 complement); a narrower one carries the unsigned values below 2^width ("print the number in big endian uint32
 format"); `{bool}` carries 0 and 1; `{ascii}` prints any number in full, so every value is within it. -/
@@ -92,7 +100,7 @@ def fitsNum (fld : NumField) (f : NumFmt) (n : Int) : Bool :=
   match f with
   | .ascii => true
   | .bool => n == 0 || n == 1
-  | f => decide (typeBits fld ≤ fmtBits f) || (decide (0 ≤ n) && decide (n < (2 ^ fmtBits f : Nat)))
+  | f => decide (typeBits fld ≤ fmtBits f) || (decide (0 ≤ n) && decide (n < fmtLim f))
 
 def fitsF (r : Rec) : FItem → Bool
   | .num fld f => fitsNum fld f (numVal r fld)
